@@ -20,7 +20,7 @@ def pad(n):
 class Case:
     """one random world on two hosts (h1 = the acting daemon's host, h2 = remote)"""
 
-    def __init__(self, env, rng, big_space=True, rich=False, multi=False, churn=False):
+    def __init__(self, env, rng, big_space=True, rich=False, multi=False, churn=False, hsm=False):
         """rich: a healthy, well-replicated archive (4-5 mostly-archive nodes, most copies healthy and on disk, a few
         released) so that deletions, transfers and rule processing actually proceed"""
         self.env = env
@@ -98,6 +98,29 @@ class Case:
             g = rng.choice(self.groups)
             if g.id != src.group_id:
                 self.w.req(f, src, g, completed=rng.random() < 0.1, cancelled=rng.random() < 0.1)
+        self.hsm_node = None
+        if hsm:
+            # a Lustre-HSM node (own Default group) driven by the scripted `lfs`: copies resident or released on "tape"
+            import json
+            self.lfs_state = os.path.join(env.tmp, "lfs_state.json")
+            os.environ["VERIF_LFS_STATE"] = self.lfs_state
+            gh = self.w.group("ghsm")
+            cfg = json.dumps({"quota_id": "q", "quota_type": "group", "headroom": 10, "lfs": os.path.join(FAKE, "lfs"), "restore_wait": 5,
+                              "release_check_count": 5})
+            nh = self.w.node("nh", gh, host="h1", stype="A", io_class="LustreHSM", io_config=cfg, address="addr", username="user")
+            self.groups.append(gh)
+            self.nodes.append(nh)
+            self.hsm_node = nh
+            paths = {}
+            for f in self.files:
+                if rng.random() < 0.75:
+                    resident = rng.random() < 0.5
+                    c = self.w.copy(f, nh, has=rng.choice("YYYM"), wants="Y", on_disk=self.w.contents[f.id], ready=resident if rng.random() < 0.8 else not resident)
+                    paths[os.path.join(nh.root, f.acq.name, f.name)] = "restored" if resident else "released"
+            with open(self.lfs_state, "w") as fh:
+                json.dump({"paths": paths}, fh)
+            import fakelfs
+            fakelfs.install(self.lfs_state)
         if churn:
             for c in db.ArchiveFileCopy.select().where(db.ArchiveFileCopy.has_file == "Y").limit(1):
                 self.w.req(db.ArchiveFile.get(id=c.file_id), db.StorageNode.get(id=c.node_id), self.groups[0])
